@@ -367,10 +367,10 @@ def rule_R14_4(ctx):
     return r
 
 
-def _always_after(f, a, b):
-    """Every path from block a to a return passes through block b."""
+def _always_after(f, a, bs):
+    """Every path from block a to a return passes through one of the blocks bs."""
     rets = [x for x in range(len(f.blocks)) if f.term(x)["k"] == "return"]
-    reach = f.reach_from(a, avoid=(b,))
+    reach = f.reach_from(a, avoid=tuple(bs))
     return not any(x in reach for x in rets)
 
 
@@ -414,6 +414,7 @@ def rule_R14_6(ctx):
                 # one passes through (a conditional store of the other half
                 # keeps the previous occupant's half on the other branch)
                 both = {tys[-1][3]}
+                others = set()      # blocks that store the other half of this slot
                 for b2 in range(len(f.blocks)):
                     if f.is_cleanup(b2):
                         continue
@@ -421,9 +422,11 @@ def rule_R14_6(ctx):
                         if s2[0] == "=" and s2[1][0] == pl[0]:
                             for p2 in s2[1][1]:
                                 if p2 != "*" and p2[0] == "f" and len(p2) > 4 and p2[4] == SV \
-                                        and p2[3] != tys[-1][3] \
-                                        and (b2 == bb or f.dominates(b2, bb) or _always_after(f, bb, b2)):
-                                    both.add(p2[3])
+                                        and p2[3] != tys[-1][3]:
+                                    others.add(b2)
+                if others and (any(b2 == bb or f.dominates(b2, bb) for b2 in others)
+                               or _always_after(f, bb, others)):
+                    both |= {"v", "source"}
                 if {"v", "source"} <= both:
                     whole += 1
                     continue
